@@ -1,6 +1,7 @@
 package props
 
 import (
+	"runtime"
 	"context"
 	"fmt"
 	"strings"
@@ -82,13 +83,16 @@ func init() {
 				cse.TimeoutMS = 60000
 				cs = append(cs, cse)
 			}
-			for i, s := range []string{"blocked-stop", "parked-dispatch", "cancel-blocked-stop", "restart-rearm"} {
+			for i, s := range []string{"blocked-stop", "parked-dispatch", "cancel-blocked-stop", "restart-rearm", "restart-from-last", "stop-at-once"} {
 				reps := 2
 				if tier == "thorough" {
 					reps = 8
 				}
 				for rep := 0; rep < reps; rep++ {
 					p := c18Params{Script: s, Scheds: []c18Sched{{0, 5}, {300, 20}}, Desc: "script=" + s}
+					if s == "restart-from-last" {
+						p.Scheds = []c18Sched{{0, 5}, {150, 20}}
+					}
 					cse := core.MkCase("C18", "script", i*10+rep, seed, p)
 					cse.Race = rep%2 == 0
 					cse.Solo = true
@@ -467,6 +471,105 @@ func c18Script(c *core.Case, o *core.Outcome) {
 		for site, n := range hc.ReachedCounts() {
 			o.AddObs("hook:"+site, n)
 		}
+	case "stop-at-once":
+		// Stop directly after Start, before the runner's goroutine has been scheduled (one P): when Stop has
+		// returned, the goroutine must be gone. 50 attempts; a goroutine dump is taken right after each Stop.
+		// (On one P the runner goroutine finishes before the caller resumes; a stray asynchronous preemption
+		// between its last statement and its exit is tolerated: 10 of 50 attempts are needed for a verdict.)
+		prev := runtime.GOMAXPROCS(1)
+		rc := &c18Rec{l: l}
+		remained, attempts := 0, 50
+		buf := make([]byte, 1<<20)
+		var sample string
+		for a := 0; a < attempts; a++ {
+			runner, _ := raterun.New(rc.c18fn, c18Schedules(&p))
+			actx, acancel := context.WithCancel(ctx)
+			runner.Start(actx)
+			runner.Stop()
+			n := runtime.Stack(buf, true)
+			if i := strings.Index(string(buf[:n]), "raterun.(*Runner).Start"); i >= 0 {
+				remained++
+				if sample == "" {
+					sample = firstN(string(buf[max(0, i-200):n]), 600)
+				}
+			}
+			acancel()
+			time.Sleep(time.Millisecond)
+		}
+		runtime.GOMAXPROCS(prev)
+		o.AddObs("immediate_stops", int64(attempts))
+		o.AddObs("immediate_stops_goroutine_seen", int64(remained))
+		if remained >= 10 {
+			o.Violate(key, "Stop was called directly after Start %d times; %d times the runner's goroutine still existed when Stop had returned: %s", attempts, remained, sample)
+			return
+		}
+		time.Sleep(30 * time.Millisecond)
+		rc.mu.Lock()
+		ninv := len(rc.invs)
+		rc.mu.Unlock()
+		if ninv > 0 {
+			o.Violate(key, "the run function was invoked %d times by runners that were stopped directly after Start (first tick due after 5 ms)", ninv)
+			return
+		}
+	case "restart-from-last":
+		// Restart while the last schedule is current: the runner goes back to the first schedule and, after the
+		// second schedule's start delay, moves on to it again
+		rc := &c18Rec{l: l}
+		runner, _ := raterun.New(rc.c18fn, c18Schedules(&p))
+		d1 := time.Duration(p.Scheds[1].DelayMS) * time.Millisecond
+		f1 := time.Duration(p.Scheds[1].FreqMS) * time.Millisecond
+		f0 := time.Duration(p.Scheds[0].FreqMS) * time.Millisecond
+		runner.Start(ctx)
+		count := func(freq time.Duration, after time.Duration) int {
+			rc.mu.Lock()
+			defer rc.mu.Unlock()
+			n := 0
+			for _, in := range rc.invs {
+				if in.freq == freq && in.begin > after {
+					n++
+				}
+			}
+			return n
+		}
+		for w := 0; count(f1, 0) < 2 && w < 400; w++ {
+			time.Sleep(5 * time.Millisecond)
+		}
+		if count(f1, 0) < 2 {
+			runner.Stop()
+			o.Inconc("the last schedule was not reached within 2 s")
+			return
+		}
+		runner.Restart()
+		rAfter := l.Now()
+		// bounded progress in the runner's own steps: 60 first-schedule invocations after the point at which
+		// the second schedule was due again (start delay + one tick + 300 ms of slack)
+		due := rAfter + d1 + f1 + 300*time.Millisecond
+		for w := 0; count(f1, rAfter+f0) == 0 && count(f0, due) < 60 && w < 2000; w++ {
+			time.Sleep(5 * time.Millisecond)
+		}
+		back := count(f0, rAfter)
+		again := count(f1, rAfter+f0)
+		late := count(f0, due)
+		runner.Stop()
+		if back == 0 {
+			if again >= 5 {
+				o.Violate(key, "Restart during the last schedule: no invocation at the first schedule's frequency followed, %d more at the last schedule's: the runner did not go back to the first schedule", again)
+				return
+			}
+			o.Inconc("no invocation observed after Restart")
+			return
+		}
+		if again == 0 {
+			if late >= 60 {
+				o.Violate(key, "Restart during the last schedule went back to the first schedule, but the runner never moved on to the next schedule again: %d first-schedule invocations happened after it was due (start delay %v + tick %v + 300 ms after the Restart)", late, d1, f1)
+				return
+			}
+			o.Inconc("second schedule not observed again after Restart (only %d late first-schedule invocations)", late)
+			return
+		}
+		rc.mu.Lock()
+		o.AddObs("invocations", int64(len(rc.invs)))
+		rc.mu.Unlock()
 	case "restart-rearm":
 		rc := &c18Rec{l: l}
 		tNew := l.Now()
